@@ -60,6 +60,8 @@ type ProxyParams struct {
 	BoltGoAway   bool         // C11: the bolt listener announces the stop with a go-away frame (enable_bolt_goaway)
 	LocalErr     bool         // some requests ask for a service that has no route, or whose cluster has no host: MOSN answers itself
 	UpIdleS      int          // cluster idle_timeout in seconds (0 = not configured): MOSN closes idle upstream connections itself
+	H2Stream     bool         // HTTP/2: the proxy forwards in stream mode (http2_use_stream: header block and body chunks as they come)
+	H2Trailers   bool         // HTTP/2: a third of the messages with a body end with trailing header fields
 	ClientHB     bool         // xprotocol clients send heartbeat requests of their own between their requests (MOSN answers them itself)
 	IgnoreHB     bool         // xprotocol upstreams never answer MOSN's heartbeats (its keep-alive gives the connection up)
 	ShutdownMs   int          // C11: graceful stop is requested at this instant (0 = never)
@@ -162,7 +164,7 @@ func DrawProxyParams(ch *sim.Choices, prop string) ProxyParams {
 		p.Filters = []FilterSpec{{Name: "f0", Phase: 0, Send: true}}
 		p.MutFilter = true
 	}
-	if prop == "C14" || (prop == "C03" && ch.Chance("params", "filters", 1, 5)) {
+	if prop == "C14" || ((prop == "C03" || prop == "C10") && p.Proto != "tcp" && ch.Chance("params", "filters", 1, 5)) {
 		// f0 is a plain tagger in front (it lets the oracle attribute send-filter calls)
 		p.Filters = []FilterSpec{{Name: "f0", Phase: 0, Send: ch.Bool("params", "f0send")}}
 		for i, n := 1, ch.Pick("params", "nfilters", 6); i <= n; i++ {
@@ -256,8 +258,17 @@ func DrawProxyParams(ch *sim.Choices, prop string) ProxyParams {
 				p.RetryOn, p.NumRetries = true, 1+ch.Pick("params", "tryprobe_retries", 2)
 				p.TryMs = pickFrom(ch, "params", "tryprobe_ms", []int{300, 800})
 				p.MaxRetries = 0
+				if ch.Chance("params", "trycapped", 1, 3) {
+					// ... or the per-try timeouts add up to more than the global timeout, which then ends the
+					// exchange in the middle of the second attempt (counted from the request, not from the retry)
+					p.GlobalMs, p.TryMs = 4000, 3000
+				}
 			}
 		}
+	}
+	if p.Proto == "http2" && (prop == "C01" || prop == "C18" || prop == "C07") {
+		p.H2Stream = ch.Chance("params", "h2stream", 1, 3)
+		p.H2Trailers = ch.Chance("params", "h2trailers", 1, 2)
 	}
 	switch prop {
 	case "C01", "C02", "C03", "C09", "C10":
@@ -390,6 +401,10 @@ func (w *Proxy) buildConfig() []byte {
 	}
 	if p.Proto == "http2" {
 		pcfg = J{"downstream_protocol": "Http2", "upstream_protocol": "Http2", "router_config_name": "r0"}
+		if p.H2Stream {
+			pcfg["extend_config"] = J{"Http2": J{"http2_use_stream": true}}
+			w.S.Fault("w:h2_stream_mode")
+		}
 		match = J{"prefix": "/"}
 	}
 	if down, up, cross := crossProto(p.Proto); cross {
@@ -1545,7 +1560,27 @@ func (w *Proxy) setupGarbage() {
 			m := &peers.H1Msg{IsReq: true, Method: "POST", Target: "/g-" + tok, Body: []byte("garbage-body-" + tok),
 				Headers: []peers.KV{{K: "Host", V: "svc.test"}, {K: "X-Tok", V: tok}, {K: "service", V: "svc0"}}}
 			valid = peers.BuildH1(m)
-			switch ch.Pick("work", "h1garbage", 6) {
+			hg := ch.Pick("work", "h1garbage", 8)
+			if os.Getenv("VERIF_H1GARBAGE") == "multipart" { // (debugging aid: pins the kind of malformed HTTP/1 input)
+				hg = 6
+			}
+			switch hg {
+			case 6, 7:
+				// a multipart/form-data body, complete by its Content-Length, that never reaches a boundary line;
+				// (drawn) a well-formed request right behind it on the same connection
+				body := "this body has " + tok + " but no boundary line at all\r\n"
+				pl := fmt.Sprintf("POST /g-%s HTTP/1.1\r\nHost: svc.test\r\nX-Tok: %s\r\nservice: svc0\r\nContent-Type: multipart/form-data; boundary=XBOUNDARYX\r\nContent-Length: %d\r\n\r\n%s", tok, tok, len(body), body)
+				g.Kind = "h1 multipart body without boundary"
+				switch ch.Pick("work", "h1garbagefollow", 3) {
+				case 1:
+					pl += string(valid)
+					g.Kind += ", then a well-formed request"
+				case 2:
+					// ... some time later (when MOSN has dealt with the first one)
+					g.Later, g.LaterAfter = valid, pickFrom(ch, "work", "h1garbagelater", []time.Duration{time.Millisecond, 50 * time.Millisecond, 2 * time.Second})
+					g.Kind += ", and a well-formed request later"
+				}
+				g.Payload = []byte(pl)
 			case 0:
 				g.Payload, g.Kind = []byte("POST /g HTTP/1.1\r\nHost: x\r\nContent-Length: 99999999999999999999\r\n\r\nabc"), "h1 absurd content-length"
 			case 1:
@@ -1676,7 +1711,10 @@ func (w *Proxy) drawVerdicts(r *peers.ReqRec) string {
 		if f.Phase < 0 || !ch.Chance("work", "fverdict", 1, 3) {
 			continue
 		}
-		v := pickFrom(ch, "work", "fverdictkind", []string{"hijack", "stop", "terminate", "hijackbody", "direct", "rematch", "rechoose", "hijack", "sendstop", "sendhijack"})
+		v := pickFrom(ch, "work", "fverdictkind", []string{"hijack", "stop", "terminate", "hijackbody", "direct", "rematch", "rechoose", "hijack", "sendstop", "sendhijack", "hijacknil"})
+		if v == "hijacknil" && isX(r.Proto) {
+			w.S.Fault("w:hijack_with_nil_headers_on_xprotocol")
+		}
 		if (v == "sendstop" || v == "sendhijack") && !f.Send {
 			v = "continue" // only a filter that is also a send filter can stop the send chain
 		}
